@@ -1339,6 +1339,74 @@ def run_C15(ctx):
 
 
 
+def report_failed_obligations(ctx, tag, failed, describe):
+    """FAILED-OBLIGATION entries of a generator: each is a violation (with the generator's witness as
+    the replay) unless it is a recorded known finding, in which case its `_rest` theorem discharges it"""
+    n = 0
+    for f in failed:
+        fid = str(f.get('id'))
+        known = ctx.matches_known(fid) is not None
+        ctx.report(fid, describe(f), {'obligation': fid, 'witness': f.get('witnesses', f.get('witness', f))})
+        n += 1
+        for o in ctx.obligations:
+            if o['name'] == 'Gen.' + fid and known:
+                o['ok'] = ctx.build_ok
+                o['note'] = 'fails exactly at a recorded known finding; the negation and the `_rest` theorem over the other points are proved'
+    return n
+
+
+def run_C02(ctx):
+    import c02_oracle
+    broken = check_obligations(ctx, PROPS['C02']['theorems'])
+    gen = ctx.gen_info
+    for f in gen.get('failed', []):
+        ctx.notes.append('generator failure: ' + str(f)[:500])
+    obl = gen.get('c02_obligations', {})
+    for o in obl.get('obligations', []):
+        ok = o.get('status') != 'failed' and ctx.build_ok
+        ctx.obligations.append({'name': 'Gen.' + o['id'], 'ok': bool(ok), 'check': f"{o.get('status')}: {o['year']} {o['form']}.{o['line']} vs {o.get('instruction', {}).get('op')}"})
+    failed = gen.get('c02_failed', [])
+    ctx.gen_info = {'totals': obl.get('totals'), 'summary': obl.get('summary'), 'failed_ids': [f.get('id') for f in failed]}
+    res = c02_oracle.run(ctx.seed, ctx.tier)
+    ctx.statement['c02-instructions'] = {
+        'checked': sum(res['checked'].values()), 'distinct_nontrivial': sum(res['nontrivial'].values()),
+        'violations': res['violation_count'], 'by_op': res['checked'], 'scenarios': res['scenarios'],
+        'coverage_totals': res['coverage_totals'], 'never_checked': res['never_checked'][:40],
+        'table': res['table'],
+        'rule': 'every instruction of the table (template accessibility text parsed by a fixed pattern set + cited transcriptions) applied, in exact rational arithmetic, to the values of a REAL solution; the line must be the nearest multiple of its unit; one case = one (solution, line) pair; non-trivial = an operand is non-zero',
+        'samples': res.get('samples', [])[:2]}
+    okey = lambda v: f"c02_{v['year']}_{v['form'].split(':')[0]}_{v['line']}".replace('-', '_').replace('.', '_')
+    by_key = {}
+    for v in res['violations']:
+        by_key.setdefault(okey(v), v)
+    reported = 0
+    for f in failed:
+        fid = str(f.get('id'))
+        w = f['witnesses'][0]
+        what = f"{f['year']} {f['form']}.{f['line']}: the code computes {w.get('code_computes')} but the form says {w.get('form_says')} ({w.get('source', '')[:80]})"
+        v = by_key.pop(fid, None)
+        if v is not None:
+            what += f"; on a real solution the line is {v.get('got')} where the instruction gives {v.get('expected')} on the solution's own values {v.get('operands')}"
+            rep = {'kind': 'scenario', 'case': dict(v.get('replay', {}), kind='scenario', observe=f"{v['form']}.{v['line']}"), 'obligation': fid, 'witness': w}
+        else:
+            rep = {'obligation': fid, 'witness': w}
+        known = ctx.matches_known(fid) is not None
+        ctx.report(fid, what, rep, found=v is not None or known)
+        reported += 1
+        for o in ctx.obligations:
+            if o['name'] == 'Gen.' + fid and known:
+                o['ok'] = ctx.build_ok
+                o['note'] = 'fails exactly at a recorded known finding; the negation is proved'
+    for key, v in by_key.items():
+        ctx.report(key, f"{v['year']} {v['form']}.{v['line']} = {v.get('got')} but the form's instruction ({v['instruction']['op']} {v['instruction']['args']}) gives {v.get('expected')} on the solution's own values {v.get('operands')}",
+                   {'kind': 'scenario', 'case': dict(v.get('replay', {}), kind='scenario', observe=f"{v['form']}.{v['line']}")})
+        reported += 1
+    if not ctx.build_ok and not reported:
+        ctx.report('obligation:build', 'generated obligations no longer build (the Python mirror of the matcher and the Lean matcher disagree, or the model changed)', {'log': ctx.build_log[-2000:]}, found=False)
+    elif broken and not reported:
+        ctx.report('obligation:' + broken[0], f'proof obligation(s) no longer check: {broken[:5]}', {'broken': broken}, found=False)
+
+
 def run_C16(ctx):
     import tax_oracles as to
     import scenarios as sc
@@ -1421,6 +1489,10 @@ PROPS = {
     'C20': dict(run=run_C20, theorems=['HabuVerif.C20.answers_and_file_kept', 'HabuVerif.C20.file_left_behind_wellformed', 'HabuVerif.C20.rerun_does_not_ask_again'],
         assumptions=['the process is not killed DURING the write itself (the file is opened with truncation): outside the listed interruption kinds and outside the model',
                      'answers with surrounding blanks are stored raw and re-read stripped (every Input.value strips): still provided, same meaning']),
+    'C02': dict(run=run_C02, theorems=['HabuVerif.C02.certified_line_computes_instruction', 'HabuVerif.C02.solved_line_is_what_the_form_says',
+        'HabuVerif.Spec.line_matches_instruction', 'HabuVerif.Spec.certifies_sound', 'HabuVerif.Spec.evalLine_of_toArith'],
+        assumptions=['the instruction table (tools/c02_instructions.py: template accessibility text parsed by a fixed pattern set; tools/c02_transcriptions.json: cited transcriptions of worksheets and NC forms) is the specification and is trusted as entered',
+                     'PARTIAL: layer 2 (meaning of a match, in exact cents) is proved for the certified fragment (carry/add/sub/floor/cap/min/max/cond over reads; about 255 of 476 instructions); sum-comprehensions, rate multiplications, guards and NC whole-dollar lines are matched syntactically (kernel-checked) and validated on real solutions by the oracle']),
     'C15': dict(run=run_C15, theorems=['HabuVerif.C15.' + t for t in [
         'shapes_2021', 'shapes_2022', 'shapes_2023', 'overpayment_and_amount_owed', 'refund_and_applied',
         'solved_return_balances', 'stored_money_is_cent_valued', 'over_owed', 'refund_split']],
@@ -1462,9 +1534,13 @@ def replay(pid, path):
     case = rep.get('case', rep)
     if isinstance(case, dict) and case.get('kind') == 'scenario':
         import scenarios as sc
-        r = sc.run(case['year'], case['forms'], None, file_inputs=case['inputs'])
+        fields = list(case.get('fields') or []) + list(case.get('also_request_lines') or [])
+        r = sc.run(case['year'], case['forms'], None, file_inputs=case['inputs'], fields=fields or None)
         print('re-run on /repo:', 'exception ' + repr(r['exception']) if r['exception'] else ('solved' if r['ok'] else 'failed'))
         if r['exception'] is None:
             for p in oracle_c01(r['solver'], r['ok']) + oracle_c03(r['solver']):
                 print('  ', p)
+        obs = case.get('observe')
+        for n in ([obs] if isinstance(obs, str) else list(obs or [])):
+            print(f'   {n} = {r["solver"]._v.values.get(n, "<no value>")!r}')
     return 0
